@@ -62,3 +62,7 @@ package hotstuff
 //@   trusted the bytes-to-sign of a timeout message are a function of its id, view and QC (serialisation checked under C12)
 //@   ensures content(result) == tmcontent(timeout.ID, timeout.View, timeout.SyncInfo.qc != nil, *timeout.SyncInfo.qc) && fresh(result)
 //@   modifies alloc
+
+//@ interface QuorumSignature.ToBytes
+//@   ensures fresh(result) || result == nil
+//@   modifies alloc
